@@ -11,5 +11,5 @@ open(p,'w').write(s.replace(old,new,1))
 PY
 [ $? -eq 0 ] || exit 1
 go build ./$(dirname $f)/ || { git checkout -- $f; echo BUILD-FAIL; exit 1; }
-for p in "$@"; do (cd /verif && ./check $p 2>&1 | grep -c "^VIOLATION" | sed "s/^/$p violations: /"; ./check $p 2>&1 | grep "^VIOLATION" | head -3 | cut -c1-220); done
+for p in "$@"; do (cd /verif && ./check $p -noev 2>&1 | grep -c "^VIOLATION" | sed "s/^/$p violations: /"; ./check $p -noev 2>&1 | grep "^VIOLATION" | head -3 | cut -c1-220); done
 git checkout -- $f
